@@ -136,16 +136,19 @@ const CRLF: &[u8] = b"\r\n";
 
 /// Replaces all CRLF with LF
 pub fn replace_crlf<'a>(bytes: &'a [u8]) -> Cow<'a, [u8]> {
-    if let Some(index) = bytes.windows(2).position(|window| window == CRLF) {
-        [
-            Cow::from(&bytes[0..index]),
-            replace_crlf(&bytes[index + 1..]),
-        ]
-        .concat()
-        .into()
-    } else {
-        bytes.into()
+    if !bytes.windows(2).any(|window| window == CRLF) {
+        return bytes.into();
     }
+    let mut replaced = Vec::with_capacity(bytes.len());
+    let mut index = 0;
+    while index < bytes.len() {
+        if bytes[index..].starts_with(CRLF) {
+            index += 1;
+        }
+        replaced.push(bytes[index]);
+        index += 1;
+    }
+    replaced.into()
 }
 
 /// Like the [`format`] with an added new line character
